@@ -1412,8 +1412,10 @@ class Compiler:
 
         for name in node.names:
             if not node.local:
+                # (the value of this name: a multi-name definition
+                # has been unpacked by the store above)
                 assignment += template(
-                    "rcontext[KEY] = __value", KEY=ast.Constant(
+                    "rcontext[KEY] = econtext[KEY]", KEY=ast.Constant(
                         str(name)))
 
         return assignment
